@@ -612,8 +612,10 @@ func (p *c16) RunCase(ctx *runner.Ctx) runner.CaseResult {
 		p.malformedKeys(x, ctx)
 	case c < nw+12:
 		p.keyConditions(x, ctx)
-	default:
+	case c == nw+12:
 		p.batchRules(x, ctx)
+	default:
+		p.requestReuse(x, ctx)
 	}
 	return x.r
 }
